@@ -263,9 +263,12 @@ def obligations(tier):
         obs.append(Ob("b.history.L.L2", "vf.props.c15:inv_history", {"rig": "L", "L": 2, "ops": ["replace", "delete", "delsnap", "expire"], "_must_reach": ["ran"]},
                       timeout=T, bounds="rig L, 2 operations from replace/delete/delsnap/expire", weight=4))
     else:
+        # sized from a measured run: below ONE first operation the in-memory L=4 sub-tree holds > 30 k histories (not exhausted in 40 min);
+        # partitioned by its first TWO operations each piece is ~3 k histories
         for f in all_ops:
-            obs.append(Ob(f"b.history.M.{f}.L4", "vf.props.c15:inv_history", {"rig": "M", "L": 4, "first": f, "_sample_every": 100}, timeout=T * 2,
-                          bounds=f"in-memory store, then {f} + 3 solver-chosen operations", weight=9))
-            obs.append(Ob(f"b.history.L.{f}.L3", "vf.props.c15:inv_history", {"rig": "L", "L": 3, "first": f, "_sample_every": 100}, timeout=T * 2,
+            for g in all_ops:
+                obs.append(Ob(f"b.history.M.{f}.{g}.L4", "vf.props.c15:inv_history", {"rig": "M", "L": 4, "first": f, "second": g, "_sample_every": 200}, timeout=900,
+                              bounds=f"in-memory store, then {f}, {g} + 2 solver-chosen operations", weight=6, allow_inconclusive=True))
+            obs.append(Ob(f"b.history.L.{f}.L3", "vf.props.c15:inv_history", {"rig": "L", "L": 3, "first": f, "_sample_every": 100}, timeout=1200,
                           bounds=f"rig L, then {f} + 2 solver-chosen operations", weight=8))
     return obs
